@@ -99,11 +99,11 @@ Proof. unfold log_aof_in, aof_push. destruct (same_db _ _); reflexivity. Qed.
 
 (** process_normal_command appends the command once, before dispatch, iff it is a write
     command by name - whatever it answers *)
-Lemma nc_aof now s c dbi parts o :
-  s_aof (snd (normal_command now s c dbi parts o)) =
+Lemma dc_aof now s c dbi parts o :
+  s_aof (snd (dispatch_command now s c dbi parts o)) =
   if is_logged parts then aof_push (s_aof s) dbi parts else s_aof s.
 Proof.
-  unfold normal_command, is_logged.
+  unfold dispatch_command, is_logged.
   destruct parts as [|first rest]; [reflexivity|]. destruct first; try reflexivity.
   set (s0 := if mem_name (upper b) write_commands then log_aof_in s dbi (FBulk b :: rest) else s).
   assert (H0 : s_aof s0 = if mem_name (upper b) write_commands then aof_push (s_aof s) dbi (FBulk b :: rest) else s_aof s).
@@ -125,6 +125,15 @@ Proof.
   destruct (beq (upper b) (bs "QUIT")); [reflexivity|].
   destruct (beq (upper b) (bs "VERIF")); [reflexivity|].
   destruct (exec_db now (get_db s0 dbi) (upper b) (FBulk b :: rest) o) as [[r0 d']|]; reflexivity.
+Qed.
+
+Lemma nc_aof now s c dbi parts o :
+  s_aof (snd (normal_command now s c dbi parts o)) =
+  if is_logged parts then aof_push (s_aof s) dbi parts else s_aof s.
+Proof.
+  unfold normal_command. destruct parts as [|[] rest]; try reflexivity.
+  rewrite dc_aof. destruct (lazy_expire_rest now s dbi (upper b) (FBulk b :: rest)) as (_ & _ & Ha & _).
+  rewrite Ha. reflexivity.
 Qed.
 
 (** a run of commands in one database: the logged ones, in order, each once *)
@@ -467,8 +476,8 @@ Proof.
   destruct i; cbn [list_set nth]; [reflexivity|]. rewrite IH. reflexivity.
 Qed.
 
-(** the databases after a command run in database [dbi]: mirrors process_normal_command *)
-Definition step_dbs (now : Z) (dbs : list db) (dbi : Z) (parts : list frame) (o : option frame) : list db :=
+(** the databases after the body of process_normal_command (after the lazy expiry) *)
+Definition dstep_dbs (now : Z) (dbs : list db) (dbi : Z) (parts : list frame) (o : option frame) : list db :=
   match parts with
   | FBulk nm :: _ =>
       let name := upper nm in
@@ -487,10 +496,48 @@ Definition step_dbs (now : Z) (dbs : list db) (dbi : Z) (parts : list frame) (o 
   | _ => dbs
   end.
 
-Lemma nc_dbs now s c dbi parts o :
-  s_dbs (snd (normal_command now s c dbi parts o)) = step_dbs now (s_dbs s) dbi parts o.
+(** lazy expiry before the command (bdd75e8): the keys its arguments name - for the key-space
+    commands every key the index reports due - are dropped from the selected database first *)
+Definition pre_dbs (now : Z) (dbs : list db) (dbi : Z) (name : bytes) (parts : list frame) : list db :=
+  if lazy_expiry_before_dispatch
+  then list_set dbs (Z.to_nat dbi) (fst (expire_before now (nth (Z.to_nat dbi) dbs empty_db) name parts))
+  else dbs.
+(** the databases after a command run in database [dbi]: mirrors process_normal_command *)
+Definition step_dbs (now : Z) (dbs : list db) (dbi : Z) (parts : list frame) (o : option frame) : list db :=
+  match parts with
+  | FBulk nm :: _ => dstep_dbs now (pre_dbs now dbs dbi (upper nm) parts) dbi parts o
+  | _ => dbs
+  end.
+Lemma purge_key_fresh now d l k : fresh now d = true -> purge_key now (d, l) k = (d, l).
 Proof.
-  unfold normal_command, step_dbs.
+  intros F. unfold purge_key. cbn [fst snd]. destruct (get_entry d k) as [e|] eqn:E; [|reflexivity].
+  pose proof (fresh_not_expired now d k F) as H. unfold was_expired in H. rewrite E in H. rewrite H. reflexivity.
+Qed.
+Lemma purge_fold_fresh_id now d : fresh now d = true -> forall ks l, fold_left (purge_key now) ks (d, l) = (d, l).
+Proof. intros F. induction ks as [|k ks IH]; intros l; [reflexivity|]. cbn [fold_left]. rewrite purge_key_fresh by exact F. apply IH. Qed.
+Lemma expire_before_id now d name parts : fresh now d = true -> expire_before now d name parts = (d, []).
+Proof.
+  intros F. unfold expire_before, purge_due.
+  assert (E : (if lazy_expires_every_arg then fold_left (purge_key now) (lazy_args parts) (d, []) else (d, [])) = (d, []))
+    by (destruct lazy_expires_every_arg; [apply purge_fold_fresh_id; exact F|reflexivity]).
+  rewrite E. destruct (bmem name lazy_keyspace_commands); [|reflexivity]. cbn [fst]. apply purge_fold_fresh_id; exact F.
+Qed.
+Lemma pre_dbs_fresh now dbs dbi name parts : fresh_all now dbs = true -> pre_dbs now dbs dbi name parts = dbs.
+Proof.
+  intros F. unfold pre_dbs. destruct lazy_expiry_before_dispatch; [|reflexivity].
+  rewrite (expire_before_id now _ name parts (fresh_all_nth now dbs _ F)). apply list_set_nth_same.
+Qed.
+Lemma lazy_expire_dbs now s dbi name parts :
+  s_dbs (lazy_expire now s dbi name parts) = pre_dbs now (s_dbs s) dbi name parts.
+Proof.
+  unfold lazy_expire, pre_dbs. destruct lazy_expiry_before_dispatch; [|reflexivity].
+  unfold get_db. destruct (expire_before now (nth (Z.to_nat dbi) (s_dbs s) empty_db) name parts). reflexivity.
+Qed.
+
+Lemma dc_dbs now s c dbi parts o :
+  s_dbs (snd (dispatch_command now s c dbi parts o)) = dstep_dbs now (s_dbs s) dbi parts o.
+Proof.
+  unfold dispatch_command, dstep_dbs.
   destruct parts as [|first rest]; [reflexivity|]. destruct first; try reflexivity.
   set (s0 := if mem_name (upper b) write_commands then log_aof_in s dbi (FBulk b :: rest) else s).
   assert (H0 : s_dbs s0 = s_dbs s)
@@ -515,6 +562,13 @@ Proof.
     reflexivity.
 Qed.
 
+Lemma nc_dbs now s c dbi parts o :
+  s_dbs (snd (normal_command now s c dbi parts o)) = step_dbs now (s_dbs s) dbi parts o.
+Proof.
+  unfold normal_command, step_dbs. destruct parts as [|[] rest]; try reflexivity.
+  rewrite dc_dbs, lazy_expire_dbs. reflexivity.
+Qed.
+
 (** ---- the domain of the replay theorems ---- *)
 (** names outside it: SPOP (random outcome) and EVALSHA (logged by hash; the script cache is not
     part of the dataset) *)
@@ -535,6 +589,7 @@ Lemma step_dbs_unlogged now dbs dbi parts o :
 Proof.
   unfold step_dbs, is_logged. intros Hl Hf.
   destruct parts as [|first rest]; [reflexivity|]. destruct first; try reflexivity.
+  rewrite (pre_dbs_fresh now dbs dbi _ _ Hf). unfold dstep_dbs.
   destruct (beq (upper b) (bs "PING")); [reflexivity|].
   destruct (beq (upper b) (bs "ECHO")); [reflexivity|].
   destruct (beq (upper b) (bs "SELECT")); [reflexivity|].
@@ -577,15 +632,15 @@ Qed.
     the database [sel_db] says, with the same transaction state *)
 Lemma sel_db_other cur b rest : beq (upper b) (bs "SELECT") = false -> sel_db cur (FBulk b :: rest) = cur.
 Proof. unfold sel_db. intros E. destruct rest as [|[] [|? ?]]; try reflexivity. rewrite E. reflexivity. Qed.
-Lemma nc_conn now s c dbi parts o cn :
+Lemma dc_conn now s c dbi parts o cn :
   s_password s = None -> zlookup c (s_conns s) = Some cn ->
-  let s' := snd (normal_command now s c dbi parts o) in
+  let s' := snd (dispatch_command now s c dbi parts o) in
   s_password s' = None /\
   (exists cn', zlookup c (s_conns s') = Some cn' /\ c_db cn' = sel_db (c_db cn) parts /\
                c_intx cn' = c_intx cn /\ c_queue cn' = c_queue cn) /\
   (forall c', c' <> c -> zlookup c' (s_conns s') = zlookup c' (s_conns s)).
 Proof.
-  intros Hpw Hc. cbv zeta. unfold normal_command.
+  intros Hpw Hc. cbv zeta. unfold dispatch_command.
   assert (Same : forall s1, sel_db (c_db cn) parts = c_db cn -> s_password s1 = None -> s_conns s1 = s_conns s ->
             s_password s1 = None /\
             (exists cn', zlookup c (s_conns s1) = Some cn' /\ c_db cn' = sel_db (c_db cn) parts /\
@@ -621,13 +676,29 @@ Proof.
   destruct (beq (upper b) (bs "VERIF")); [apply Same; auto|].
   destruct (exec_db now (get_db s0 dbi) (upper b) (FBulk b :: rest) o) as [[r0 d']|]; apply Same; auto.
 Qed.
-(** a command run with a connection id that has no connection (EXEC runs its queue as 0) *)
-Lemma nc_noconn now s c dbi parts o :
-  s_password s = None -> zlookup c (s_conns s) = None ->
-  s_conns (snd (normal_command now s c dbi parts o)) = s_conns s /\
-  s_password (snd (normal_command now s c dbi parts o)) = None.
+Lemma nc_conn now s c dbi parts o cn :
+  s_password s = None -> zlookup c (s_conns s) = Some cn ->
+  let s' := snd (normal_command now s c dbi parts o) in
+  s_password s' = None /\
+  (exists cn', zlookup c (s_conns s') = Some cn' /\ c_db cn' = sel_db (c_db cn) parts /\
+               c_intx cn' = c_intx cn /\ c_queue cn' = c_queue cn) /\
+  (forall c', c' <> c -> zlookup c' (s_conns s') = zlookup c' (s_conns s)).
 Proof.
-  intros Hpw Hc. unfold normal_command.
+  intros Hpw Hc. cbv zeta. unfold normal_command.
+  destruct parts as [|first rest]; [split; [exact Hpw|]; split; [exists cn; auto|auto]|].
+  destruct first; try (split; [exact Hpw|]; split; [exists cn; unfold sel_db; auto|auto]).
+  destruct (lazy_expire_rest now s dbi (upper b) (FBulk b :: rest)) as (Lc & Lp & _ & _).
+  destruct (dc_conn now (lazy_expire now s dbi (upper b) (FBulk b :: rest)) c dbi (FBulk b :: rest) o cn) as (A & B & C);
+    [rewrite Lp; exact Hpw|rewrite Lc; exact Hc|].
+  split; [exact A|]. split; [exact B|]. intros c' Hn. rewrite (C c' Hn), Lc. reflexivity.
+Qed.
+(** a command run with a connection id that has no connection (EXEC runs its queue as 0) *)
+Lemma dc_noconn now s c dbi parts o :
+  s_password s = None -> zlookup c (s_conns s) = None ->
+  s_conns (snd (dispatch_command now s c dbi parts o)) = s_conns s /\
+  s_password (snd (dispatch_command now s c dbi parts o)) = None.
+Proof.
+  intros Hpw Hc. unfold dispatch_command.
   destruct parts as [|first rest]; [auto|]. destruct first; auto.
   set (s0 := if mem_name (upper b) write_commands then log_aof_in s dbi (FBulk b :: rest) else s).
   assert (H0 : s_conns s0 = s_conns s /\ s_password s0 = None)
@@ -646,6 +717,17 @@ Proof.
   destruct (beq (upper b) (bs "QUIT")); [auto|].
   destruct (beq (upper b) (bs "VERIF")); [auto|].
   destruct (exec_db now (get_db s0 dbi) (upper b) (FBulk b :: rest) o) as [[r0 d']|]; auto.
+Qed.
+
+Lemma nc_noconn now s c dbi parts o :
+  s_password s = None -> zlookup c (s_conns s) = None ->
+  s_conns (snd (normal_command now s c dbi parts o)) = s_conns s /\
+  s_password (snd (normal_command now s c dbi parts o)) = None.
+Proof.
+  intros Hpw Hc. unfold normal_command. destruct parts as [|[] rest]; auto.
+  destruct (lazy_expire_rest now s dbi (upper b) (FBulk b :: rest)) as (Lc & Lp & _ & _).
+  destruct (dc_noconn now (lazy_expire now s dbi (upper b) (FBulk b :: rest)) c dbi (FBulk b :: rest) o) as [A B];
+    [rewrite Lp; exact Hpw|rewrite Lc; exact Hc|]. rewrite A, Lc. auto.
 Qed.
 
 (** ================= 5. histories as traces of commands ================= *)
@@ -992,12 +1074,12 @@ Lemma sel_db_logged cur p : is_logged p = true -> sel_db cur p = cur.
 Proof.
   intros H. destruct p as [|[] rest]; try discriminate. apply sel_db_other. eapply logged_not_select; exact H.
 Qed.
-Lemma redo_select now cur dbs dbi : db_ok dbi -> redo_step now (cur, dbs) (aof_select dbi) = (dbi, dbs).
+Lemma redo_select now cur dbs dbi : db_ok dbi -> fresh_all now dbs = true ->
+  redo_step now (cur, dbs) (aof_select dbi) = (dbi, dbs).
 Proof.
-  intros Hd. unfold redo_step, aof_select, sel_db, step_dbs. cbn [fst snd].
-  change (upper (bs "SELECT")) with (bs "SELECT").
-  change (beq (bs "SELECT") (bs "SELECT")) with true. change (beq (bs "SELECT") (bs "PING")) with false.
-  change (beq (bs "SELECT") (bs "ECHO")) with false. cbv iota.
+  intros Hd Hf. unfold redo_step. cbn [fst snd]. rewrite step_dbs_unlogged by (auto; vm_compute; reflexivity).
+  unfold aof_select, sel_db. change (upper (bs "SELECT")) with (bs "SELECT").
+  change (beq (bs "SELECT") (bs "SELECT")) with true. cbv iota.
   rewrite (small_db_text dbi Hd). unfold db_ok in Hd. replace (16 <=? dbi) with false by lia. reflexivity.
 Qed.
 
@@ -1031,9 +1113,9 @@ Proof.
         by (unfold redo_step; cbn [fst snd]; rewrite (sel_db_logged dbi p Lp); reflexivity).
       rewrite E in *.
       apply IH; auto. intros n Hn. inversion Hn; reflexivity.
-    + cbn [app redo_fresh snd] in Hr. apply andb_prop in Hr as [Hr0 Hr]. rewrite (redo_select now' cur d2 dbi Hd) in Hr.
+    + cbn [app redo_fresh snd] in Hr. apply andb_prop in Hr as [Hr0 Hr]. rewrite (redo_select now' cur d2 dbi Hd Hr0) in Hr.
       cbn [redo_fresh snd] in Hr. apply andb_prop in Hr as [Hr1 Hr2].
-      cbn [app]. unfold redo. cbn [fold_left]. fold (redo now'). rewrite (redo_select now' cur d2 dbi Hd).
+      cbn [app]. unfold redo. cbn [fold_left]. fold (redo now'). rewrite (redo_select now' cur d2 dbi Hd Hr0).
       assert (E : redo_step now' (dbi, d2) p = (dbi, step_dbs now' d2 dbi p None))
         by (unfold redo_step; cbn [fst snd]; rewrite (sel_db_logged dbi p Lp); reflexivity).
       rewrite E in *.
@@ -1106,13 +1188,17 @@ Lemma repaired_history_ok :
   len (d_data (get_db (run_tevs repaired_history) 1)) = 2.
 Proof. repeat (apply conj; [vm_compute; reflexivity|]). vm_compute; reflexivity. Qed.
 
-(** removal of an expired key by a read is not logged (and TTLs are logged relative): here
-    GET removes k, INCR recreates it as 1; the replay increments the stale 5 *)
+(** expiry is not logged and TTLs are logged relative: k is set with 300 ms to live at time 0
+    and is gone at time 600 (any command naming it removes it first, bdd75e8; nothing is
+    appended); a redo at time 600 sets it again, alive for another 300 ms *)
 Definition expired_history : list tev :=
-  hist [[bs "SET"; bs "k"; bs "5"; bs "PX"; bs "0"]; [bs "GET"; bs "k"]; [bs "INCR"; bs "k"]].
-Lemma expired_diverges : diverges 0 expired_history /\ forallb (fun te => ev_ok (snd te)) expired_history = true /\
-  live_fresh (trace_of expired_history) dbs0 = false.
-Proof. apply conj; [diverge|]. apply conj; vm_compute; reflexivity. Qed.
+  [(0, EConn 1); (0, EFrame 1 (cmd [bs "SET"; bs "k"; bs "v"; bs "PX"; bs "300"])); (600, EFrame 1 (cmd [bs "GET"; bs "k"]))].
+Lemma expired_diverges :
+  map dataset (s_dbs (replay 600 (aof_log (run_tevs expired_history)))) <> map dataset (s_dbs (run_tevs expired_history)) /\
+  forallb (fun te => ev_ok (snd te)) expired_history = true /\
+  live_fresh (trace_of expired_history) dbs0 = false /\
+  redo_fresh 600 (aof_log (run_tevs expired_history)) (0, dbs0) = true.
+Proof. apply conj; [intro H; vm_compute in H; discriminate H|]. repeat (apply conj; [vm_compute; reflexivity|]). vm_compute; reflexivity. Qed.
 
 (** random outcomes are logged verbatim: two admissible outcomes of the same SPOP / XADD *
     leave the same file and different datasets, so no function of the file restores both *)
